@@ -1497,7 +1497,20 @@ class IRGenerator:
                             *loc)
                     if isinstance(env[type_name], Environment):
                         # Handle reference to field in imported namespace.
+                        if val.count('.') < 2:
+                            raise InvalidSpec(
+                                'Bad doc reference to field %s: a field of a '
+                                'type in namespace %s is referenced as '
+                                'namespace.type.field.' %
+                                (quote(val), quote(type_name)),
+                                *loc)
                         namespace_name, type_name, field_name = val.split('.', 2)
+                        if type_name not in env[namespace_name]:
+                            raise InvalidSpec(
+                                'Bad doc reference to field %s of '
+                                'unknown type %s.' %
+                                (field_name, quote(namespace_name + '.' + type_name)),
+                                *loc)
                         data_type_to_check = env[namespace_name][type_name]
                     elif isinstance(env[type_name], Alias):
                         data_type_to_check = env[type_name].data_type
